@@ -41,6 +41,23 @@ pub fn scope_begin(site: &'static str, tasks: usize, threads: usize) {
     }
 }
 
+/// One item of a data-parallel batch: announces itself as task `id` of the current scope when created and
+/// its end when dropped (also while unwinding).
+pub struct ItemGuard {
+    id: u64,
+}
+
+pub fn item(id: u64) -> ItemGuard {
+    point("task.start.id", id);
+    ItemGuard { id }
+}
+
+impl Drop for ItemGuard {
+    fn drop(&mut self) {
+        point("task.exit", self.id);
+    }
+}
+
 pub fn log_write(pos: usize, len: usize, cap: usize) {
     if let Some(h) = handler() {
         h.log_write(pos, len, cap);
